@@ -118,7 +118,7 @@ def segment_invariants(rec, system, seg, tf, feats, y0_copy=None, require_reach=
     return ok
 
 
-def dense_structure(rec, system, feats, expect_times=None, K=64, clause_prefix=""):
+def dense_structure(rec, system, feats, expect_times=None, K=64, clause_prefix="", substeps=False):
     """C06 structural invariant of the live DenseOutput at a quiescent point."""
     cp = clause_prefix
     sol = system.sol
@@ -151,8 +151,11 @@ def dense_structure(rec, system, feats, expect_times=None, K=64, clause_prefix="
             break
     lo = [min(float(p.t0), float(p.t1)) for p in pieces]
     hi = [max(float(p.t0), float(p.t1)) for p in pieces]
+    ttol = 0.0
+    if substeps:   # Richardson wrappers: pieces come from sub-steps whose end points are re-accumulated (rounding)
+        ttol = 16 * 2.3e-16 * max(1.0, max(abs(x) for x in lo + hi))
     for i in range(len(pieces) - 1):
-        if hi[i] != lo[i + 1]:
+        if abs(hi[i] - lo[i + 1]) > ttol:
             bad("dense_contiguous", "consecutive_pieces_do_not_share_an_endpoint", at=i, a=[lo[i], hi[i]], b=[lo[i + 1], hi[i + 1]])
             break
     if expect_times is not None:
@@ -161,7 +164,14 @@ def dense_structure(rec, system, feats, expect_times=None, K=64, clause_prefix="
             ends.add(float(p.t0))
             ends.add(float(p.t1))
         want = set(float(x) for x in expect_times)
-        if ends != want:
+        if substeps:
+            arr = np.array(sorted(ends)) if ends else np.zeros(0)
+            missing = [w for w in sorted(want) if not len(arr) or float(np.min(np.abs(arr - w))) > ttol]
+            if missing:
+                bad("dense_cover", "recorded_times_not_among_piece_endpoints", missing=missing[:4], n_pieces=len(pieces), n_times=len(want))
+            if ends and want and (min(ends) < min(want) - ttol or max(ends) > max(want) + ttol):
+                bad("dense_cover", "pieces_extend_beyond_recorded_range", ends=[min(ends), max(ends)], recorded=[min(want), max(want)])
+        elif ends != want:
             extra = sorted(ends - want)[:4]
             missing = sorted(want - ends)[:4]
             bad("dense_cover", "piece_endpoints_differ_from_recorded_times", extra=extra, missing=missing, n_pieces=len(pieces), n_times=len(want))
